@@ -190,8 +190,16 @@ where
                         }
                     } else if char == OSC {
                         let code = co.yield_(None).unwrap_or_default();
-                        if code == "R" || code == "p" {
+                        if code == "R" {
                             continue; // reset palette not implemented
+                        }
+                        if code == "P" {
+                            // Set palette (not implemented): seven hexadecimal
+                            // digits follow and there is no terminator.
+                            for _ in 0..7 {
+                                let _ = co.yield_(None);
+                            }
+                            continue;
                         }
                         let mut param = "".to_owned();
 
@@ -316,8 +324,16 @@ where
                         }
                     } else if char == OSC {
                         let code = co.yield_(None).unwrap_or_default();
-                        if code == "R" || code == "p" {
+                        if code == "R" {
                             continue; // reset palette not implemented
+                        }
+                        if code == "P" {
+                            // Set palette (not implemented): seven hexadecimal
+                            // digits follow and there is no terminator.
+                            for _ in 0..7 {
+                                let _ = co.yield_(None);
+                            }
+                            continue;
                         }
                         let mut param = "".to_owned();
 
